@@ -65,6 +65,11 @@ def gen_ir(r, fmt):
                 p["typ"] = "Literal[%s]" % ", ".join("'%s'" % m for m in ms)
                 if "default" in p:
                     p["default"] = ms[0]
+    if fmt in ("docstring-rest", "function", "class") and r.random() < 0.12:
+        # a type so long that the emitter wraps its `:type:` line (members with blanks: a re-joined line must keep them)
+        n = r.choice(list(ir["params"]))
+        ir["params"][n]["typ"] = "Literal['centre left', 'centre right', 'upper left corner', 'upper right corner', 'lower left corner', 'lower right']"
+        ir["params"][n]["default"] = "centre left"
     if fmt.startswith("sqlalchemy") and r.random() < 0.3:
         # key markers in descriptions: a foreign key, a primary key, and a column that is both
         n = r.choice(list(ir["params"]))
